@@ -32,7 +32,7 @@ def derive_seed(*parts: Any) -> int:
 
 
 class Choices:
-    __slots__ = ("_rng", "_values", "_strict", "_labels", "_pos", "record", "seed")
+    __slots__ = ("_rng", "_values", "_strict", "_labels", "_pos", "record", "seed", "notes")
 
     def __init__(
         self,
@@ -50,6 +50,8 @@ class Choices:
         self._pos = 0
         # (label, bound, value)
         self.record: list[tuple[str, int, int]] = []
+        # decisions a generator made once for the whole run (a function of earlier draws, never a source of any)
+        self.notes: dict[str, Any] = {}
 
     # -- the one primitive ------------------------------------------------
     def draw(self, n: int, label: str) -> int:
